@@ -94,8 +94,8 @@ impl FnInfo {
 #[derive(Clone, Debug, PartialEq, Eq)]
 pub enum Ev {
     Exec { fid: u32, k: u32, thread: Option<usize>, ver: u32 },
-    CacheIf { fid: u32, key: String, val: String, verdict: bool },
-    InvalOn { fid: u32, key: String, val: String, verdict: bool },
+    CacheIf { fid: u32, key: String, val: String, verdict: bool, thread: Option<usize> },
+    InvalOn { fid: u32, key: String, val: String, verdict: bool, thread: Option<usize> },
 }
 
 pub static LOG: Mutex<Vec<Ev>> = Mutex::new(Vec::new());
@@ -155,14 +155,14 @@ pub fn body_res(fid: u32, k: u32) -> Result<String, String> {
 /// verdict chosen by the explorer: 0 = true (cache it), 1 = false
 pub fn cache_if_hook(fid: u32, key: &str, val: String) -> bool {
     let verdict = vsched::choose(2, "cache_if") == 0;
-    LOG.lock().unwrap().push(Ev::CacheIf { fid, key: key.to_string(), val, verdict });
+    LOG.lock().unwrap().push(Ev::CacheIf { fid, key: key.to_string(), val, verdict, thread: vsched::current_thread() });
     verdict
 }
 
 /// verdict chosen by the explorer: 0 = false (entry is fine), 1 = true (stale)
 pub fn inval_on_hook(fid: u32, key: &str, val: String) -> bool {
     let verdict = vsched::choose(2, "invalidate_on") == 1;
-    LOG.lock().unwrap().push(Ev::InvalOn { fid, key: key.to_string(), val, verdict });
+    LOG.lock().unwrap().push(Ev::InvalOn { fid, key: key.to_string(), val, verdict, thread: vsched::current_thread() });
     verdict
 }
 
